@@ -1192,3 +1192,144 @@ CONTRACTS[U + 'condense'] = dict(
                       ('lemma', 'mask_index', ['SuppMask(g, N)', 'N']),
                       ('lemma', 'mask_index', ['Repeat2(SuppMask(g, N))', '2 * N'])]},
 )
+
+# ------------------------------------------------------------------ C16 / C18: pauli_diagonalize2
+# signless rotation of a string x by a generator r: multiplied in exactly when they anticommute
+PREDS['rot'] = (('r', 'x', 'N'), 'Xor(x, r) if AcqSum(r, x, N) % 2 == 1 else x')
+PREDS['eqn'] = (('a', 'b', 'n'), 'forall(c, 0, n, a[c] == b[c])')
+LEMMAS['rot_preserve'] = dict(
+    doc='rotating two strings by the same generator preserves their commutation relation',
+    params=[('r', 'int1'), ('a', 'int1'), ('b', 'int1'), ('N', 'int')],
+    requires=['bits(r, 2 * N)', 'bits(a, 2 * N)', 'bits(b, 2 * N)'],
+    ensures=['(AcqSum(rot(r, a, N), rot(r, b, N), N) - AcqSum(a, b, N)) % 2 == 0'],
+    uses=[('lemma', 'acq_bilinear', ['a', 'r', 'b', 'N']),
+          ('lemma', 'acq_bilinear', ['a', 'r', 'Xor(b, r)', 'N']),
+          ('lemma', 'acq_bilinear', ['b', 'r', 'a', 'N']),
+          ('lemma', 'acq_bilinear', ['b', 'r', 'Xor(a, r)', 'N']),
+          ('lemma', 'acq_bilinear', ['b', 'r', 'r', 'N']),
+          ('lemma', 'acq_bilinear', ['a', 'r', 'r', 'N']),
+          ('lemma', 'acq_antisym', ['r', 'r', 'N']),
+          ('lemma', 'acq_antisym', ['a', 'r', 'N']),
+          ('lemma', 'acq_antisym', ['b', 'r', 'N']),
+          ('lemma', 'acq_antisym', ['a', 'b', 'N'])],
+)
+
+_d2N = 'N'
+_o1, _o2 = 'old(g1)', 'old(g2)'
+_s1g1, _s1g2 = "at('if1.then.end', g1)", "at('if1.then.end', g2)"
+_s2g1, _s2g2 = "at('if0.then.end', g1)", "at('if0.then.end', g2)"
+
+
+def _d2_step(gen, b1, b2, with_unit=False):
+    """ghost assertions after one rotation step `g1 = rot(gen, b1); g2 = rot(gen, b2)` of pauli_diagonalize2 (b1, b2: the values before)"""
+    out = [
+        ('assert', 'bits(%s, 2 * N) and bits(g1, 2 * N) and bits(g2, 2 * N)' % gen),
+        ('assert', 'eqn(g1, rot(%s, %s, N), 2 * N)' % (gen, b1)),
+        ('assert', 'eqn(g2, rot(%s, %s, N), 2 * N)' % (gen, b2)),
+        # the pair still anticommutes
+        ('assert_from', 'anti(g1, g2, N)',
+         ['anti(%s, %s, N)' % (b1, b2), 'eqn(g1, rot(%s, %s, N), 2 * N)' % (gen, b1), 'eqn(g2, rot(%s, %s, N), 2 * N)' % (gen, b2),
+          'bits(%s, 2 * N) and bits(%s, 2 * N) and bits(%s, 2 * N)' % (gen, b1, b2),
+          ('lemma', 'rot_preserve', [gen, b1, b2, 'N']),
+          ('lemma', 'acqsum_ext', ['g1', 'rot(%s, %s, N)' % (gen, b1), 'g2', 'N']),
+          ('lemma', 'acqsum_ext', ['g2', 'rot(%s, %s, N)' % (gen, b2), 'rot(%s, %s, N)' % (gen, b1), 'N'])]),
+    ]
+    if with_unit:
+        out.append(('assert', 'unitZ(g1, i0, N)'))
+    return out
+
+
+
+def _d2_unit_facts(b1, b2):
+    """from unitZ(b1) and anti(b1, b2): the x component of b2 on qubit i0 is 1"""
+    return [('assert_from', '%s[2 * i0] == 1' % b2,
+             ['unitZ(%s, i0, N)' % b1, 'anti(%s, %s, N)' % (b1, b2), 'bits(%s, 2 * N)' % b2, '0 <= i0 and i0 < N',
+              ('lemma', 'acq_local', [b1, b2, 'N', 'i0'])])]
+
+
+def _d2_block3(b2):
+    """ghost assertions after the third block `g = b2 with Z on qubit i0; g2 = (b2 + g) % 2` (g1 is the unit Z string, b2 anticommutes with it)"""
+    return (_d2_unit_facts('g1', b2) + [
+        ('lemma', 'acq_antisym', [b2, b2, 'N'], 'optional'),
+        ('lemma?', 'acq_diff2', [b2, 'g', b2, 'N', 'i0', 'i0'], 'optional'),
+        ('assert', 'anti(g, %s, N)' % b2, 'optional'),
+        ('lemma', 'acq_local', ['g1', 'g', 'N', 'i0'], 'optional'),
+        ('lemma', 'acq_antisym', ['g', 'g1', 'N'], 'optional'),
+        ('assert', 'not anti(g, g1, N)', 'optional'),
+        ('assert', 'bits(g, 2 * N) and bits(g2, 2 * N)', 'optional'),
+        ('assert', 'eqn(g2, rot(g, %s, N), 2 * N)' % b2, 'optional'),
+        ('assert', 'eqn(g1, rot(g, g1, N), 2 * N)', 'optional'),
+        ('assert', 'g2[2 * i0] == 1 and forall(c, 0, 2 * N, implies(c != 2 * i0 and c != 2 * i0 + 1, g2[c] == 0))', 'optional'),
+    ])
+
+
+# first block skipped: g1 is trivial off qubit i0 and has no X component there; it is not the identity (it anticommutes with g2): it is Z on i0
+_d2_none_facts = [('lemma?', 'onsite_flat', [_o1, 'i0', 'N']), ('lemma?', 'acq_zero', [_o2, _o1, 'N']),
+                  ('assert', 'unitZ(%s, i0, N)' % _o1)]
+_d2_chain1 = lambda x: 'rot(result[0][0], %s, N)' % x
+_d2_chain2 = lambda x: 'rot(result[0][1], rot(result[0][0], %s, N), N)' % x
+_d2_chain3 = lambda x: 'rot(result[0][2], rot(result[0][1], rot(result[0][0], %s, N), N), N)' % x
+CONTRACTS[U + 'pauli_diagonalize2'] = dict(
+    params=[('g1', 'int1'), ('g2', 'int1'), ('i0', 'int')], defaults={'i0': 0},
+    requires=['len(g1) % 2 == 0', 'len(g2) == len(g1)', '0 <= i0 < len(g1) // 2', 'bits1(g1)', 'bits1(g2)', 'anti(g1, g2, len(g1) // 2)'],
+    # the returned generators, applied in order as signless rotations to BOTH strings, turn the anticommuting pair into (Z, X or Y) on qubit i0
+    ensures=['len(result[0]) <= 3', 'len(result[1]) == len(old(g1))', 'len(result[2]) == len(old(g1))',
+             'unitZ(result[1], i0, len(old(g1)) // 2)',
+             'result[2][2 * i0] == 1',
+             'forall(c, 0, len(old(g1)), implies(c != 2 * i0 and c != 2 * i0 + 1, result[2][c] == 0))',
+             'implies(len(result[0]) == 0, eqn(result[1], %s, 2 * N) and eqn(result[2], %s, 2 * N))' % (_o1, _o2),
+             'implies(len(result[0]) == 1, eqn(result[1], %s, 2 * N) and eqn(result[2], %s, 2 * N))' % (_d2_chain1(_o1), _d2_chain1(_o2)),
+             'implies(len(result[0]) == 2, eqn(result[1], %s, 2 * N) and eqn(result[2], %s, 2 * N))' % (_d2_chain2(_o1), _d2_chain2(_o2)),
+             'implies(len(result[0]) == 3, eqn(result[1], %s, 2 * N) and eqn(result[2], %s, 2 * N))' % (_d2_chain3(_o1), _d2_chain3(_o2))],
+    modifies=[], returns=('list', 'int1', 'int1'),
+    hints={
+        'if1.then.end': [
+            ('lemma', 'acq_antisym', [_o1, _o1, 'N']),
+            ('lemma?', 'acq_zero', [_o2, _o1, 'N']),
+            ('lemma?', 'acq_diff2', [_o1, 'g', _o1, 'N', 'i', 'i0'], 'optional'),
+            ('lemma?', 'acq_diff2', [_o1, 'g', _o1, 'N', 'i0', 'i0']),
+            ('assert', 'anti(g, %s, N)' % _o1),
+        ] + _d2_step('g', _o1, _o2),
+        'if0.then.end': [
+            # after the first block (the snapshot exists): the second generator acts on the values left by the first
+            ('lemma', 'acq_antisym', [_s1g1, _s1g1, 'N'], 'optional'),
+            ('lemma?', 'acq_diff2', [_s1g1, 'g', _s1g1, 'N', 'i0', 'i0'], 'optional'),
+            ('assert', 'anti(g, %s, N)' % _s1g1, 'optional'),
+        ] + [h + ('optional',) for h in _d2_step('g', _s1g1, _s1g2, with_unit=True)] + [
+            ('unless', '%s[2 * i0] == 0' % _o1, [
+                ('lemma', 'acq_antisym', [_o1, _o1, 'N']),
+                ('lemma?', 'acq_diff2', [_o1, 'g', _o1, 'N', 'i0', 'i0']),
+                ('assert', 'anti(g, %s, N)' % _o1)] + _d2_step('g', _o1, _o2, with_unit=True)),
+        ],
+        'if3.then.end': [
+            ('when', 'len(gs) >= 2', _d2_block3(_s2g2)),
+            ('when', 'len(gs) == 1', _d2_none_facts + _d2_block3(_o2)),
+        ],
+        'return': [
+            ('when', 'len(gs) == 0', _d2_none_facts + _d2_unit_facts(_o1, _o2)),
+            # no third block after the first: g2 is on site, and its x component is 1 because it anticommutes with Z on that qubit
+            ('unless_passed', 'if3.then.end', [('when', 'len(gs) >= 1', _d2_unit_facts('result[1]', 'result[2]'))]),
+            ('lemma?', 'onsite_flat', ['result[2]', 'i0', 'N']),
+            # the chains of the postcondition, step by step (the applicable instances are the ones whose antecedent holds on this path)
+            ('lemma?', 'acqsum_ext', [_s1g1, _d2_chain1(_o1), 'result[0][1]', 'N'], 'optional'),
+            ('lemma?', 'acqsum_ext', [_s1g2, _d2_chain1(_o2), 'result[0][1]', 'N'], 'optional'),
+            ('lemma?', 'acqsum_ext', [_s2g1, _d2_chain1(_o1), 'result[0][1]', 'N'], 'optional'),
+            ('lemma?', 'acqsum_ext', [_s2g2, _d2_chain1(_o2), 'result[0][1]', 'N'], 'optional'),
+            ('lemma?', 'acqsum_ext', [_s2g1, _d2_chain2(_o1), 'result[0][2]', 'N'], 'optional'),
+            ('lemma?', 'acqsum_ext', [_s2g2, _d2_chain2(_o2), 'result[0][2]', 'N'], 'optional'),
+            ('when', 'len(gs) == 3', sum([[
+                ('lemma', 'acqsum_ext', [a1, _d2_chain1(o), 'result[0][1]', 'N']),
+                ('assert_from', 'eqn(%s, %s, 2 * N)' % (a2, _d2_chain2(o)),
+                 ['eqn(%s, rot(result[0][1], %s, N), 2 * N)' % (a2, a1), 'eqn(%s, %s, 2 * N)' % (a1, _d2_chain1(o)),
+                  'AcqSum(result[0][1], %s, N) == AcqSum(result[0][1], %s, N)' % (a1, _d2_chain1(o))]),
+                ('lemma', 'acqsum_ext', [a2, _d2_chain2(o), 'result[0][2]', 'N']),
+                ('assert_from', 'eqn(result[%d], %s, 2 * N)' % (t, _d2_chain3(o)),
+                 ['eqn(result[%d], rot(result[0][2], %s, N), 2 * N)' % (t, a2), 'eqn(%s, %s, 2 * N)' % (a2, _d2_chain2(o)),
+                  'AcqSum(result[0][2], %s, N) == AcqSum(result[0][2], %s, N)' % (a2, _d2_chain2(o))])]
+                for (t, o, a1, a2) in ((1, _o1, _s1g1, _s2g1), (2, _o2, _s1g2, _s2g2))], [])),
+        ],
+    },
+)
+
+import re as _re
+CONTRACTS[U + 'pauli_diagonalize2']['ensures'] = [_re.sub(r'\bN\b', '(len(old(g1)) // 2)', e) for e in CONTRACTS[U + 'pauli_diagonalize2']['ensures']]
